@@ -281,6 +281,15 @@ class RZILTransformer(Transformer):
             raise NotImplementedError(f"{items[0]} statements are not supported.")
         return items  # Pass them upwards
 
+    def labeled_stmt(self, items):
+        # Without this handler the tree of the labeled statement (and the statement itself)
+        # is silently dropped from the instruction sequence.
+        raise NotImplementedError("Labeled statements are not supported.")
+
+    def expr(self, items):
+        # "expr" nodes only remain in the tree for comma expressions: "a = 1, b = 2".
+        raise NotImplementedError("Comma expressions are not supported.")
+
     def relational_expr(self, items):
         self.ext.set_token_meta_data("relational_expr")
         return self.compare_op(items)
